@@ -24,16 +24,16 @@ git stash -q
 go test -count=1 -run 'Seed' $pkgdir 2>&1 | tail -2
 git stash pop -q
 echo "== checks against the change applied to /repo"
-git -C /repo apply /tmp/seed_patch_$name.diff || { echo "patch does not apply to /repo"; exit 2; }
+EV=/tmp/evalrepo_$name; git -C /repo worktree add -q --detach $EV HEAD && git -C $EV apply /tmp/seed_patch_$name.diff || { echo "patch does not apply"; exit 2; }
 mkdir -p /verif/seeded/$name
 res=""
 for p in "$@"; do
-  out=$(cd /verif && timeout 1500 ./bin/symgo check $p quick 2>&1; echo "exit $?")
+  out=$(cd /verif && VERIF_REPO=$EV VERIF_DIR_EVID=1 timeout 1500 ./bin/symgo check $p quick 2>&1; echo "exit $?")
   echo "$out" | grep -E "^(VIOLATION|exit|INCONCLUSIVE|KNOWN)" | cut -c1-300 | head -6
   echo "$out" | grep -E "^  detail" | head -2
   res="$res $p:$(echo "$out" | tail -1)"
 done
-git -C /repo checkout -- .
+git -C /repo worktree remove --force $EV
 cp /tmp/seed_patch_$name.diff /verif/seeded/$name/patch.diff
 cp $demo /verif/seeded/$name/$(basename $demo)
 [ -f SEED_NOTES.md ] && cp SEED_NOTES.md /verif/seeded/$name/NOTES.md
